@@ -169,7 +169,7 @@ func c17Run(r *Run, h int) {
 			n = 20 + rng.Intn(20)
 		}
 		for k := n; k > 0; k-- {
-			plans[ci] = append(plans[ci], []string{"inc", "inc", "rmw", "cas", "cas", "claim", "move", "share", "drop", "dropclaim", "lookclaim", "swap", "swinc", "swinc", "handover", "swcas"}[rng.Intn(16)])
+			plans[ci] = append(plans[ci], []string{"inc", "inc", "rmw", "cas", "cas", "claim", "move", "share", "drop", "dropclaim", "lookclaim", "swap", "swinc", "swinc", "handover", "swcas", "sameuuid"}[rng.Intn(17)])
 		}
 	}
 	seeds := make([]int64, nCli)
@@ -262,6 +262,11 @@ func c17Run(r *Run, h int) {
 						row = Row{"name": VA(AS(fmt.Sprintf("own-%d-%d", ci, k))), "alt": VA(AS(nm)), "n": VA(AI(int64(ci)))}
 					}
 					ops = []OperationJ{{Op: "insert", Table: "Uniq", UUID: mkUUID(200000 + ci*1000 + k), Row: row}, logOp}
+				case "sameuuid":
+					// the contested key is the row's own uuid, chosen by the clients: one insert under it wins, the
+					// others are refused (and nobody hears of them)
+					ops = []OperationJ{{Op: "insert", Table: "Uniq", UUID: mkUUID(600000 + lr.Intn(3)),
+						Row: Row{"name": VA(AS(fmt.Sprintf("su-%d-%d", ci, k))), "alt": VA(AS(fmt.Sprintf("sua-%d-%d", ci, k))), "n": VA(AI(int64(ci)))}}, logOp}
 				case "lookclaim":
 					// look first, then claim: the transaction reads the rows that hold the name (they enter
 					// its working set unchanged) and inserts a row with that name all the same
